@@ -23,8 +23,13 @@ package main
 import (
 	"encoding/hex"
 	"errors"
+	"fmt"
 	"os"
 	"path/filepath"
+	"runtime"
+	"sync"
+	"sync/atomic"
+	"time"
 
 	"github.com/markusressel/fan2go/internal/configuration"
 	"github.com/markusressel/fan2go/internal/fans"
@@ -104,6 +109,69 @@ func psPutRaw(path, kind, id string, val []byte) error {
 	})
 }
 
+// psParallel: `n` saves of different fans' RPM curves and PWM maps in flight at once (queued behind the database file
+// lock, which the harness holds until all of them are waiting), then every entry is loaded and compared with what was
+// saved. Ids `par<i>` are used by nothing else.
+func psParallel(a kv) string {
+	n, seed := a.int("n", 8), a.int("seed", 1)
+	if p := a.int("procs", 0); p > 0 {
+		old := runtime.GOMAXPROCS(p)
+		defer runtime.GOMAXPROCS(old)
+	}
+	mkData := func(i int) map[int]float64 {
+		m := map[int]float64{}
+		for k := 0; k < 2+(i*7+seed)%9; k++ {
+			m[(k*37+i*11+seed)%256] = float64((i+1)*100 + k*13 + seed)
+		}
+		return m
+	}
+	mkMap := func(i int) map[int]int {
+		m := map[int]int{}
+		for k := 0; k < 1+(i*5+seed)%12; k++ {
+			m[(k*29+i*3)%256] = (k*17 + i*31 + seed) % 256
+		}
+		return m
+	}
+	db, err := bolt.Open(curPs.path, 0600, nil) // hold the file lock: the saves queue up behind it
+	if err != nil {
+		return "err"
+	}
+	var wg sync.WaitGroup
+	var failed int64
+	for i := 0; i < n; i++ {
+		wg.Add(2)
+		go func(i int) {
+			defer wg.Done()
+			d := mkData(i)
+			if err := persistence.NewPersistence(curPs.path).SaveFanPwmData(psFan(fmt.Sprintf("par%d", i), &d)); err != nil {
+				atomic.AddInt64(&failed, 1)
+			}
+		}(i)
+		go func(i int) {
+			defer wg.Done()
+			if err := persistence.NewPersistence(curPs.path).SaveFanPwmMap(fmt.Sprintf("par%d", i), mkMap(i)); err != nil {
+				atomic.AddInt64(&failed, 1)
+			}
+		}(i)
+	}
+	time.Sleep(time.Duration(a.int("hold_ms", 30)) * time.Millisecond)
+	_ = db.Close()
+	wg.Wait()
+	bad := 0
+	for i := 0; i < n; i++ {
+		id := fmt.Sprintf("par%d", i)
+		d, err := curPs.p.LoadFanPwmData(psFan(id, nil))
+		if err != nil || fmtFloatMap(d) != fmtFloatMap(mkData(i)) {
+			bad++
+		}
+		m, err := curPs.p.LoadFanPwmMap(id)
+		if err != nil || fmtIntMap(m) != fmtIntMap(mkMap(i)) {
+			bad++
+		}
+	}
+	return fmt.Sprintf("ok failed=%d bad=%d", atomic.LoadInt64(&failed), bad)
+}
+
 func init() {
 	cleanups = append(cleanups, psClose)
 	register("ps", func(op string, a kv) string {
@@ -115,6 +183,8 @@ func init() {
 		}
 		id := a.str("id", "")
 		switch op {
+		case "ps.parallel":
+			return psParallel(a)
 		case "ps.reopen":
 			curPs.p = persistence.NewPersistence(curPs.path)
 			return "ok"
